@@ -64,6 +64,7 @@ def gen_consts(v):
         ('DMP_TYPE_MASK', a + 'DMPHeader::TYPE_MASK'),
         ('DMP_SIZE_MASK', a + 'DMPHeader::SIZE_MASK'),
         ('DMP_TWO_BYTES', a + 'TWO_BYTES'),
+        ('DMP_ADDR_UNIT', a + 'DMPSizeToByteSize(' + a + 'TWO_BYTES)'),
         ('DMP_RANGE_EQUAL', a + 'RANGE_EQUAL'),
         ('VECTOR_ROOT_E131', a + 'VECTOR_ROOT_E131'),
         ('VECTOR_ROOT_E131_REV2', a + 'VECTOR_ROOT_E131_REV2'),
@@ -92,7 +93,7 @@ def gen_consts(v):
             'libs/acn/E131Header.h', 'libs/acn/DMPHeader.h', 'libs/acn/DMPAddress.h', 'libs/acn/E133Header.h',
             'libs/acn/LLRPHeader.h', 'libs/acn/PDU.h']
     return v.gen_consts_cpp('C06/acn', incs, ents, os.path.join(v.VERIF, 'props', 'C06', 'coq', 'GenAcn.v'),
-                            extra_sources=['libs/acn/PreamblePacker.cpp', 'common/network/NetworkUtils.cpp', 'common/base/Logging.cpp', 'common/utils/StringUtils.cpp', 'common/network/IPV4Address.cpp', 'common/network/SocketAddress.cpp', 'common/network/Interface.cpp', 'common/network/MACAddress.cpp', 'common/utils/Clock.cpp', 'common/base/SysExits.cpp', 'common/base/Flags.cpp', 'common/base/Version.cpp', 'common/file/Util.cpp', 'common/network/SocketCloser.cpp', 'common/math/Random.cpp'])
+                            extra_sources=['libs/acn/DMPAddress.cpp', 'libs/acn/PreamblePacker.cpp', 'common/network/NetworkUtils.cpp', 'common/base/Logging.cpp', 'common/utils/StringUtils.cpp', 'common/network/IPV4Address.cpp', 'common/network/SocketAddress.cpp', 'common/network/Interface.cpp', 'common/network/MACAddress.cpp', 'common/utils/Clock.cpp', 'common/base/SysExits.cpp', 'common/base/Flags.cpp', 'common/base/Version.cpp', 'common/file/Util.cpp', 'common/network/SocketCloser.cpp', 'common/math/Random.cpp'])
 
 
 PRE = [0x00, 0x10, 0x00, 0x00] + list(b'ASC-E1.17\0\0\0')
